@@ -382,6 +382,10 @@ class Parser:
         if value is None and uminus:
             return self.token_error(
                 'Outside expressions, a minus is allowed only for numbers.')
+        if uminus and value is not None and (
+                isinstance(value, bool) or not isinstance(value, (int, float))):
+            return self.token_error(
+                'Outside expressions, a minus is allowed only for numbers.')
         if value is not None:
             move_inst = OpCode.MOVEQ
             if uminus:
